@@ -490,7 +490,7 @@ func main() {
 	maxN := 33
 	allUpTo := 4
 	if run.Thorough() {
-		allUpTo = 7
+		allUpTo = 6
 	}
 	for n := 1; n <= maxN; n++ {
 		var pats [][]bool
@@ -511,7 +511,7 @@ func main() {
 			pats = append(pats, none, all, first, last)
 			extra := 2
 			if run.Thorough() {
-				extra = 10
+				extra = 7
 			}
 			for k := 0; k < extra*run.Scale; k++ {
 				p := make([]bool, n)
